@@ -30,6 +30,7 @@ import (
 type EngOpt struct {
 	Mem          string
 	KV           bool
+	Rev          bool // descending custom comparator (ignored with KV)
 	Delta        bool
 	NWriters     int
 	NKeys        int
@@ -119,7 +120,8 @@ func (e *Engine) failed() bool {
 func NewEngine(c *rt.C, o EngOpt) *Engine {
 	e := &Engine{o: o, c: c, r: c.Rng, model: NewModel(), versions: map[string][]verRec{}, CloseOrders: map[string]bool{}, AgeSigs: map[string]bool{}}
 	e.seed = c.Rng.Int63()
-	e.db = OpenDB(DBOpt{Mem: o.Mem, KV: o.KV, Delta: o.Delta})
+	e.db = OpenDB(DBOpt{Mem: o.Mem, KV: o.KV, Rev: o.Rev, Delta: o.Delta})
+	e.model = e.db.NewModel()
 	if o.Perturb > 0 {
 		y := yielder(e.seed, o.Perturb)
 		pt := perturber(e.seed, o.Perturb)
@@ -483,7 +485,7 @@ func (e *Engine) checkpoint(where string) {
 	}
 	last := e.db.N.GetLastGCSn()
 	st := e.db.N.VerifStore()
-	w := WalkLive(st, nitroInsCmp(e.o.KV), nitro.ItemSize, 4*(len(e.versions)+16)*8+1024, e.liveFn())
+	w := WalkLive(st, e.db.InsCmp(), nitro.ItemSize, 4*(len(e.versions)+16)*8+1024, e.liveFn())
 	e.NodesWalked += int64(w.Level0Linked)
 	if w.MaxLevelSeen > e.WalkMaxLevel {
 		e.WalkMaxLevel = w.MaxLevelSeen
@@ -657,7 +659,7 @@ func (e *Engine) Run() {
 	idleUnfreed := false
 	if e.db.A != nil && !e.failed() {
 		// idle database: nothing unlinked may remain unfreed (C17 at nitro level)
-		w := Walk(e.db.N.VerifStore(), nitroInsCmp(o.KV), nitro.ItemSize, 1<<30)
+		w := Walk(e.db.N.VerifStore(), e.db.InsCmp(), nitro.ItemSize, 1<<30)
 		wantLive := 2*w.Level0Linked + 2
 		if got := e.db.A.LiveCount(); got != wantLive {
 			e.problem("C17", "idle-unfreed", "idle database: %d allocator blocks are live but the structure accounts for %d (2 per linked node + 2 sentinels): unlinked nodes are waiting for a future flush", got, wantLive)
